@@ -306,7 +306,7 @@ def drive_wd(item):
         name = "t%d" % (k + 1)
         names.append(name)
         loc = dirs[t["loc"]]
-        out = "out_%s.txt" % name
+        out = "out_%s_re\u0301sultat.txt" % name        # (a decomposed accent: the name on disk is exactly this one)
         ins = ["src.txt"] if prev_out is None else ["src.txt", prev_out]
         sb_src = os.path.join(loc, "src.txt")
         if not os.path.exists(sb_src):
